@@ -230,8 +230,16 @@ class Interp:
             return True
         if isinstance(v, SDict):
             raise Unsupported("truth of symbolic dict")
-        if isinstance(v, (_smap().SMap, _smap().SColl)):
-            raise Unsupported("truth of symbolic map / collection")
+        if isinstance(v, _smap().SColl):
+            # a list / set is true iff it has a member: one of the materialised members is present, or the opaque
+            # rest is non-empty
+            parts = [m[0] for m in v.members] + ([v.rest_nonempty] if v.rest_nonempty is not None else [])
+            if any(p is True for p in parts):
+                return True
+            zs = [p for p in parts if not isinstance(p, bool)]
+            return z3.Or(*zs) if zs else False
+        if isinstance(v, _smap().SMap):
+            raise Unsupported("truth of symbolic map")
         if v is None:
             return False
         if isinstance(v, Sym):
